@@ -120,6 +120,15 @@ func c11Open(c *Ctx, splitLen int) *c11Sess {
 		c.R.Inconcl("registration not seen")
 		return nil
 	}
+	if c11Opened%4 < 2 {
+		// the server of half of the sessions announces its parameters (long lines among them): the split length is the
+		// application's choice - 450 when it made none - whatever the server says it can take
+		if !s.Isupport(mc, c11Opened/4) {
+			c.R.Inconcl("005 not processed")
+			return nil
+		}
+		c.R.Count("sessions_after_isupport", 1)
+	}
 	mc.Take()
 	return &c11Sess{s: s, mc: mc, splitLen: splitLen}
 }
